@@ -84,22 +84,22 @@ memset / strlen of the edit buffer or of history_space left its object
 (`faulted = false`: every access of the model is index-checked against the
 exactly sized buffer, including the terminator written by `sline_getline` for
 the execute callback and the `memcpy + '\0'` of the history push). -/
-theorem vterm_safe (cap depth : Nat) (hcap : 1 ≤ cap) (hd : 1 ≤ depth) (hd2 : depth ≤ 255) (cxx : Bool)
+theorem vterm_safe (cap depth : Nat) (hcap : 1 ≤ cap) (hd : 1 ≤ depth) (cxx : Bool)
     (prompt : List Byte) (keys : List Byte) :
     let v := (Vterm.init cap depth cxx prompt).run keys
     v.rl.faulted = false ∧ v.rl.line.cursor ≤ v.rl.line.len ∧ v.rl.line.len < cap ∧
     v.rl.line.buf.length = cap ∧ v.rl.hist.length = cap * depth ∧ v.rl.headhist < depth ∧ v.rl.curhist ≤ depth := by
-  exact safe_of_sim cap depth _ _ (run_sim cap depth hd hd2 _ _ keys (init_sim cap depth hcap hd hd2 cxx prompt))
+  exact safe_of_sim cap depth _ _ (run_sim cap depth hd _ _ keys (init_sim cap depth hcap hd cxx prompt))
 
 /-- THE LINE HANDED TO EXECUTE.  For every byte sequence typed at the terminal
 (any bytes: printable, BS, ESC-[ arrows, ESC-[-3-~, CR/LF in any pairing,
 Ctrl-C, unknown escapes, anything else), the sequence of callback events —
 every `execute(line)` with its line, every SIGINT, in order — is exactly the
 sequence the reference editor produces. -/
-theorem readline_line (cap depth : Nat) (hcap : 1 ≤ cap) (hd : 1 ≤ depth) (hd2 : depth ≤ 255) (cxx : Bool)
+theorem readline_line (cap depth : Nat) (hcap : 1 ≤ cap) (hd : 1 ≤ depth) (cxx : Bool)
     (prompt : List Byte) (keys : List Byte) :
     (Vterm.init cap depth cxx prompt).events keys = (Ref.init depth).events cap keys :=
-  events_sim cap depth hd hd2 _ _ keys (init_sim cap depth hcap hd hd2 cxx prompt)
+  events_sim cap depth hd _ _ keys (init_sim cap depth hcap hd cxx prompt)
 
 /-- ... and between the events the edit buffer and the cursor are the reference
 editor's: after every key sequence the line the next call works on (`nrl`: the
@@ -107,13 +107,13 @@ buffer itself in state 2, the freshly reset buffer while the reset after Enter
 is still pending) holds the reference line with the cursor at the reference
 position, is browsing the same history entry and is in the same place of an
 escape sequence. -/
-theorem vterm_refines_editor (cap depth : Nat) (hcap : 1 ≤ cap) (hd : 1 ≤ depth) (hd2 : depth ≤ 255) (cxx : Bool)
+theorem vterm_refines_editor (cap depth : Nat) (hcap : 1 ≤ cap) (hd : 1 ≤ depth) (cxx : Bool)
     (prompt : List Byte) (keys : List Byte) :
     let v := (Vterm.init cap depth cxx prompt).run keys
     let r := (Ref.init depth).run cap keys
     v.nrl.line.text = r.z.line ∧ v.nrl.line.cursor = r.z.left.length ∧ v.nrl.curhist = r.browse ∧
     v.nrl.state = r.esc := by
-  exact editor_of_sim cap depth _ _ (run_sim cap depth hd hd2 _ _ keys (init_sim cap depth hcap hd hd2 cxx prompt))
+  exact editor_of_sim cap depth _ _ (run_sim cap depth hd _ _ keys (init_sim cap depth hcap hd cxx prompt))
 
 /-- WHAT THE RETURN CODES MEAN.  In every reachable state of the terminal's
 readline (after any key sequence) the code `readline_putchar` answers to the
@@ -123,15 +123,15 @@ cursor was removed; LEFT / RIGHT = the cursor moved; UPDATELINE = another
 history line was loaded (cursor at its end, `lastsize` = the old cursor);
 NOTHING / OVERFLOW = the line is unchanged; NEWLINE = the line is unchanged and
 accepted — and NEWLINE is answered exactly when the reference accepts a line. -/
-theorem readline_codes (cap depth : Nat) (hcap : 1 ≤ cap) (hd : 1 ≤ depth) (hd2 : depth ≤ 255) (cxx : Bool)
+theorem readline_codes (cap depth : Nat) (hcap : 1 ≤ cap) (hd : 1 ≤ depth) (cxx : Bool)
     (prompt : List Byte) (keys : List Byte) (c : Byte) :
     let rl := ((Vterm.init cap depth cxx prompt).run keys).nrl
     let r := (Ref.init depth).run cap keys
     EchoRel c (rl.putchar c).2 (rl.putchar c).1.lastsize r.z (r.rlKey cap c).1.z ∧
     ((rl.putchar c).2 = RL_NEWLINE → (r.rlKey cap c).2 = some r.z.line) ∧
     ((rl.putchar c).2 ≠ RL_NEWLINE → (r.rlKey cap c).2 = none) := by
-  have h := run_sim cap depth hd hd2 _ _ keys (init_sim cap depth hcap hd hd2 cxx prompt)
-  exact (rstep cap depth hd hd2 _ _ c h.sim).2
+  have h := run_sim cap depth hd _ _ keys (init_sim cap depth hcap hd cxx prompt)
+  exact (rstep cap depth hd _ _ c h.sim).2
 
 /-! ### history recall -/
 
@@ -141,7 +141,7 @@ from the one before it), then press Up `k` times, `1 ≤ k ≤ min n depth`: the
 edit buffer holds the `k`-th most recent line with the cursor at its end, the
 terminal is browsing entry `k`.  (All ring indices stay `< depth` and all ring
 writes inside history_space: `vterm_safe`.) -/
-theorem history_recall (cap depth : Nat) (hcap : 1 ≤ cap) (hd : 1 ≤ depth) (hd2 : depth ≤ 255) (cxx : Bool)
+theorem history_recall (cap depth : Nat) (hcap : 1 ≤ cap) (hd : 1 ≤ depth) (cxx : Bool)
     (prompt : List Byte) (ls : List (List Byte)) (k : Nat)
     (hl : ∀ l ∈ ls, l ≠ [] ∧ l.length + 1 ≤ cap ∧ ∀ c ∈ l, plain c) (hdist : ConsecDistinct ls)
     (hk1 : 1 ≤ k) (hk : k ≤ ls.length) (hkd : k ≤ depth) :
@@ -151,7 +151,7 @@ theorem history_recall (cap depth : Nat) (hcap : 1 ≤ cap) (hd : 1 ≤ depth) (
     v.rl.curhist = k := by
   have hr := ref_recall cap depth hd ls k hl hdist hk1 hk hkd
   rw [ups_snoc k hk1, ← List.append_assoc] at hr ⊢
-  obtain ⟨_, t1, t2, t3⟩ := recall_transfer cap depth hd hd2 _ _ (init_sim cap depth hcap hd hd2 cxx prompt) _ 0x41
+  obtain ⟨_, t1, t2, t3⟩ := recall_transfer cap depth hd _ _ (init_sim cap depth hcap hd cxx prompt) _ 0x41
     (by decide) _ hr.1
   exact ⟨t1, t2, by rw [t3, hr.2]⟩
 
@@ -177,28 +177,28 @@ sequence, complete or not), every printable prompt, capacity ≥ 1, depth
     |prompt| + cursor, the screen's escape parser is in its ground state;
   * while igris::vtermxx still owes the prompt after Enter (state 1) — and
     before the first call (state 0) — the row is blank, cursor in column 0. -/
-theorem screen_matches (cap depth : Nat) (hcap : 1 ≤ cap) (hd : 1 ≤ depth) (hd2 : depth ≤ 255) (cxx : Bool)
+theorem screen_matches (cap depth : Nat) (hcap : 1 ≤ cap) (hd : 1 ≤ depth) (cxx : Bool)
     (prompt : List Byte) (keys : List Byte) (hP : AllP prompt) (hk : ∀ k ∈ keys, screenKey k = true) :
     let v0 := Vterm.init cap depth cxx prompt
     let v := v0.run keys
     let scr := Screen.blank.feed (v0.echoed keys)
     (v.state = 2 → scr = ⟨prompt ++ v.rl.line.text, prompt.length + v.rl.line.cursor, .ground⟩) ∧
     (v.state ≠ 2 → scr = ⟨[], 0, .ground⟩) := by
-  have h0 := init_sim cap depth hcap hd hd2 cxx prompt
-  obtain ⟨s1, s2⟩ := screen_run cap depth hd hd2 (Vterm.init cap depth cxx prompt) (Ref.init depth) Screen.blank keys
+  have h0 := init_sim cap depth hcap hd cxx prompt
+  obtain ⟨s1, s2⟩ := screen_run cap depth hd (Vterm.init cap depth cxx prompt) (Ref.init depth) Screen.blank keys
     h0 (refP_init depth) rfl hP hk (by unfold SInv; rw [if_neg (show ¬ ((Vterm.init cap depth cxx prompt).state = 2) from fun e => by simp [Vterm.init] at e)]; rfl)
   exact screen_of_sim cap depth prompt _ _ _ s2 s1
 
 /-- vterm.c: after every non-empty key sequence the screen shows prompt ++ line
 with the cursor at |prompt| + cursor -/
-theorem screen_matches_c (cap depth : Nat) (hcap : 1 ≤ cap) (hd : 1 ≤ depth) (hd2 : depth ≤ 255)
+theorem screen_matches_c (cap depth : Nat) (hcap : 1 ≤ cap) (hd : 1 ≤ depth)
     (prompt : List Byte) (keys : List Byte) (hP : AllP prompt) (hk : ∀ k ∈ keys, screenKey k = true)
     (hne : keys ≠ []) :
     Screen.blank.feed ((Vterm.init cap depth false prompt).echoed keys) =
       ⟨prompt ++ ((Vterm.init cap depth false prompt).run keys).rl.line.text,
        prompt.length + ((Vterm.init cap depth false prompt).run keys).rl.line.cursor, .ground⟩ :=
-  (screen_matches cap depth hcap hd hd2 false prompt keys hP hk).1
-    (run_state_c cap depth hd hd2 _ _ (init_sim cap depth hcap hd hd2 false prompt) rfl keys hne)
+  (screen_matches cap depth hcap hd false prompt keys hP hk).1
+    (run_state_c cap depth hd _ _ (init_sim cap depth hcap hd false prompt) rfl keys hne)
 
 /-- non-vacuity, and the two defects repaired in fix-C15 as concrete sessions:
 "abc", Left, Left, "x" on a 6-byte line: the row reads "$ axbc", cursor after the x -/
@@ -226,7 +226,7 @@ equal the reference editor's, memory safety and bounds, and the screen —
 fed the init step's output and then every echoed byte — shows prompt ++ line
 with the cursor at |prompt| + cursor whenever the terminal is in state 2
 (blank row while vtermxx owes the prompt after Enter). -/
-theorem init_step_session (cap depth : Nat) (hcap : 1 ≤ cap) (hd : 1 ≤ depth) (hd2 : depth ≤ 255) (cxx : Bool)
+theorem init_step_session (cap depth : Nat) (hcap : 1 ≤ cap) (hd : 1 ≤ depth) (cxx : Bool)
     (prompt : List Byte) (keys : List Byte) :
     let v0 := (Vterm.init cap depth cxx prompt).initStep.1
     v0.events keys = (Ref.init depth).events cap keys ∧
@@ -238,10 +238,10 @@ theorem init_step_session (cap depth : Nat) (hcap : 1 ≤ cap) (hd : 1 ≤ depth
           ⟨prompt ++ (v0.run keys).rl.line.text, prompt.length + (v0.run keys).rl.line.cursor, .ground⟩) ∧
       ((v0.run keys).state ≠ 2 →
         Screen.blank.feed ((Vterm.init cap depth cxx prompt).initStep.2 ++ v0.echoed keys) = ⟨[], 0, .ground⟩)) := by
-  have h0 := init_sim cap depth hcap hd hd2 cxx prompt
+  have h0 := init_sim cap depth hcap hd cxx prompt
   obtain ⟨i1, i2, i3, i4, _, i6⟩ := initStep_sim cap depth _ _ h0 (by simp [Vterm.init])
-  refine ⟨events_sim cap depth hd hd2 _ _ keys i1, ?_, ?_⟩
-  · have := safe_of_sim cap depth _ _ (run_sim cap depth hd hd2 _ _ keys i1)
+  refine ⟨events_sim cap depth hd _ _ keys i1, ?_, ?_⟩
+  · have := safe_of_sim cap depth _ _ (run_sim cap depth hd _ _ keys i1)
     exact ⟨this.1, this.2.1, this.2.2.1⟩
   · intro hP hk
     have hp0 : (Vterm.init cap depth cxx prompt).initStep.1.prompt = prompt := i4
@@ -252,7 +252,7 @@ theorem init_step_session (cap depth : Nat) (hcap : 1 ≤ cap) (hd : 1 ≤ depth
       unfold SInv
       rw [if_pos i2, hp0]
       exact showing_empty prompt hP
-    obtain ⟨s1, s2⟩ := screen_run cap depth hd hd2 _ _ _ keys i1 (refP_init depth) he0 (by rw [hp0]; exact hP) hk hs0
+    obtain ⟨s1, s2⟩ := screen_run cap depth hd _ _ _ keys i1 (refP_init depth) he0 (by rw [hp0]; exact hP) hk hs0
     rw [hp0] at s1
     rw [hout, Screen.feed_append]
     exact screen_of_sim cap depth prompt _ _ _ s2 s1
